@@ -659,3 +659,41 @@ impl Bank {
         res
     }
 }
+
+/// set the clock seen by `Clock::get()` on the calling thread (function-level checks)
+pub fn set_thread_clock(clock: &Clock) {
+    install();
+    CTX.with(|c| c.borrow_mut().clock = clock.clone());
+}
+
+/// Build a one-account BPF-loader input buffer and hand the resulting Pinocchio `AccountInfo` to `f`.
+pub fn with_pino_account<R>(key: &Pubkey, owner: &Pubkey, lamports: u64, data: &[u8], f: impl FnOnce(&pinocchio::account_info::AccountInfo) -> R) -> R {
+    let mut buf: Vec<u8> = Vec::new();
+    buf.extend_from_slice(&1u64.to_le_bytes());
+    buf.push(0xff);
+    buf.push(0);
+    buf.push(1);
+    buf.push(0);
+    buf.extend_from_slice(&[0u8; 4]);
+    buf.extend_from_slice(key.as_ref());
+    buf.extend_from_slice(owner.as_ref());
+    buf.extend_from_slice(&lamports.to_le_bytes());
+    buf.extend_from_slice(&(data.len() as u64).to_le_bytes());
+    buf.extend_from_slice(data);
+    buf.extend(std::iter::repeat(0u8).take(MAX_PERMITTED_DATA_INCREASE));
+    while buf.len() % 8 != 0 {
+        buf.push(0);
+    }
+    buf.extend_from_slice(&0u64.to_le_bytes());
+    buf.extend_from_slice(&0u64.to_le_bytes()); // instruction data length
+    buf.extend_from_slice(whirlpool::ID.as_ref());
+    let mut backing: Vec<u64> = vec![0u64; buf.len() / 8 + 2];
+    let ptr = backing.as_mut_ptr() as *mut u8;
+    unsafe { std::ptr::copy_nonoverlapping(buf.as_ptr(), ptr, buf.len()) };
+    const UNINIT: core::mem::MaybeUninit<pinocchio::account_info::AccountInfo> = core::mem::MaybeUninit::<pinocchio::account_info::AccountInfo>::uninit();
+    let mut accounts = [UNINIT; 4];
+    let (_pid, count, _data) = unsafe { pinocchio::entrypoint::deserialize::<4>(ptr, &mut accounts) };
+    assert_eq!(count, 1);
+    let infos: &[pinocchio::account_info::AccountInfo] = unsafe { core::slice::from_raw_parts(accounts.as_ptr() as _, count) };
+    f(&infos[0])
+}
